@@ -2508,3 +2508,59 @@ Proof.
   - rewrite <- Et. rewrite universal_newlines_crlf by exact G3. rewrite G4.
     rewrite split_tables_groups; [exact G5|exact Hne|exact G1].
 Qed.
+
+(* ================================================================================================ *)
+(** * the run's parameter estimates: designated row, fixed parameters dropped, model names *)
+
+Lemma texts_eqb_refl : forall l, texts_eqb l l = true.
+Proof. induction l as [|x l IH]; [reflexivity|]. cbn [texts_eqb]. rewrite text_eqb_refl. exact IH. Qed.
+
+Lemma combine_all_nan : forall (names : list text) (vals : list cell),
+    forallb is_nan vals = true -> forallb (fun nc => is_nan (snd nc)) (combine names vals) = true.
+Proof.
+  induction names as [|n names IH]; intros vals H; [reflexivity|]. destruct vals as [|v vals]; [reflexivity|].
+  cbn [forallb] in H. apply andb_true_iff in H. destruct H as [Hv Hvs]. cbn [combine forallb snd]. rewrite Hv. apply IH. exact Hvs.
+Qed.
+
+Definition fixed_names_of (fx : list (text * bool)) (pcols : list text) : list text :=
+  filter (fun n => match blookup fx n with Some b => b | None => false end) pcols.
+
+Theorem pe_designated_lemma : forall t g pfix nm fpe cols rows sd,
+    design_of t = None -> ext_data_frame (tb_frame t) = ROk g ->
+    g_has_iter0 g = true -> g_final_obj_eq_last g = true ->
+    parse_parameter_estimates [t] pfix nm = ROk (fpe, cols, rows, sd) ->
+    exists fx,
+      get_fixed_parameters g pfix nm = ROk fx /\
+      ((exists fe, final_parameter_estimates g = ROk fe /\
+                   fpe = map (fun nc => (rename_with nm (fst nc), snd nc))
+                             (drop_names (fixed_names_of fx (drop_first_last (f_cols g))) fe))
+       \/ forallb (fun nc => is_nan (snd nc)) fpe = true).
+Proof.
+  intros t g pfix nm fpe cols rows sd Hd Hg H0 HF H.
+  unfold parse_parameter_estimates, est_tables in H. cbn [number_from filter snd] in H. rewrite Hd in H.
+  cbn [rmap rbind fst snd] in H. unfold iter_frame in H. rewrite Hg in H. cbn [rbind] in H.
+  destruct (has_str (col_cells g s_OBJ)); [discriminate|].
+  rewrite (iter_df_printed_iterations g H0 HF) in H. cbn [rbind fst snd] in H.
+  destruct (get_fixed_parameters g pfix nm) as [fx|k|] eqn:Efx; cbn [rbind] in H; try discriminate.
+  exists fx. split; [reflexivity|].
+  cbn [last_opt map existsb orb f_cols f_rows] in H.
+  set (pcols := drop_first_last (f_cols g)) in *.
+  destruct (existsb (fun n => match blookup fx n with None => true | Some _ => false end) pcols || false); [discriminate|].
+  cbn [forallb andb] in H. rewrite texts_eqb_refl in H. cbn [negb andb flat_map app] in H. rewrite app_nil_r in H.
+  fold (fixed_names_of fx pcols) in H.
+  set (keep := map (fun c => negb (existsb (text_eqb c) (fixed_names_of fx pcols))) pcols) in *.
+  destruct (has_dup (map (rename_with nm) (keep_mask keep pcols))); [discriminate|].
+  match type of H with context [last_opt ?x] => destruct (last_opt x) as [[[k1 it1] lastvals]|] eqn:EL end; [|discriminate].
+  destruct (forallb is_nan lastvals) eqn:Enan.
+  - (* the last printed iteration carries no value: NaN is reported *)
+    right. cbn [rbind] in H.
+    destruct (omega_sigma_stdcorr g) as [sdv|k|]; try discriminate;
+      [|destruct k as [|p]; try discriminate; do 2 (destruct p; try discriminate)]; inversion H; subst.
+    + apply combine_all_nan. exact Enan.
+    + apply combine_all_nan. exact Enan.
+  - left. destruct (final_parameter_estimates g) as [fe|k|] eqn:Efe; cbn [rbind] in H; try discriminate.
+    destruct (negb (forallb (fun n => existsb (fun nc => text_eqb (fst nc) n) fe) (fixed_names_of fx pcols))); cbn [rbind] in H; [discriminate|].
+    exists fe. split; [reflexivity|].
+    destruct (omega_sigma_stdcorr g) as [sdv|k|]; try discriminate;
+      [|destruct k as [|p]; try discriminate; do 2 (destruct p; try discriminate)]; inversion H; reflexivity.
+Qed.
